@@ -16,22 +16,31 @@ open Dulwich
 
 /-! ## _merge_entries -/
 
-/-- `posixpath.join(a, b)` on bytes: an absolute `b` replaces `a`; no separator is inserted after an
-empty `a` or one that already ends with `/`. -/
+/-- `posixpath.join(a, b)` on bytes (what `TreeEntry.in_path` does; used by `_tree_entries` before the
+repair): an absolute `b` replaces `a`; no separator is inserted after an empty `a` or one that already
+ends with `/`. -/
 def pyPosixJoin (a b : Bytes) : Bytes :=
   if b.head? = some 47 then b
   else if a.isEmpty ∨ a.getLast? = some 47 then a ++ b
   else a ++ 47 :: b
 
-/-- Python `_tree_entries(path, tree)`. -/
-def pyTreeEntries (path : Bytes) (tree : Option (List TreeEntry)) : Except Exc (List TreeEntry) :=
+/-- repaired `_tree_entries`: `path + b"/" + entry.path if path else entry.path` -/
+def pyJoin (path name : Bytes) : Bytes :=
+  if ¬ path.isEmpty then path ++ Gen.pyPathSep :: name else name
+
+/-- Python `_tree_entries(path, tree)` with the sort and the join of the given code version. -/
+def pyTreeEntriesG (sortFn : List TreeEntry → Bool → Except Exc (List TreeEntry)) (join : Bytes → Bytes → Bytes)
+    (path : Bytes) (tree : Option (List TreeEntry)) : Except Exc (List TreeEntry) :=
   match tree with
   | none => .ok []                                              -- `if not tree`
   | some [] => .ok []                                           -- `if not tree` (empty tree is falsy)
   | some es =>
-    match sortedTreeItemsPy es true with
+    match sortFn es true with
     | .error x => .error x
-    | .ok items => .ok (items.map fun e => ⟨pyPosixJoin path e.name, e.mode, e.hexsha⟩)
+    | .ok items => .ok (items.map fun e => ⟨join path e.name, e.mode, e.hexsha⟩)
+
+def pyTreeEntries := pyTreeEntriesG sortedTreeItemsPy pyJoin
+def pyTreeEntriesOld := pyTreeEntriesG sortedTreeItemsPyOld pyPosixJoin
 
 /-- The two-pointer loop of Python `_merge_entries` (`<`, `>`, else), then the two tails. -/
 def pyMergeLoop : Nat → List TreeEntry → List TreeEntry → List (Option TreeEntry × Option TreeEntry)
@@ -51,6 +60,14 @@ def mergeEntriesPy (path : Bytes) (t1 t2 : Option (List TreeEntry)) : Except Exc
   | .error x => .error x
   | .ok e1 =>
     match pyTreeEntries path t2 with
+    | .error x => .error x
+    | .ok e2 => .ok (pyMergeLoop (e1.length + e2.length + 1) e1 e2)
+
+def mergeEntriesPyOld (path : Bytes) (t1 t2 : Option (List TreeEntry)) : Except Exc MergeResult :=
+  match pyTreeEntriesOld path t1 with
+  | .error x => .error x
+  | .ok e1 =>
+    match pyTreeEntriesOld path t2 with
     | .error x => .error x
     | .ok e2 => .ok (pyMergeLoop (e1.length + e2.length + 1) e1 e2)
 
